@@ -106,6 +106,9 @@ def run(idx: ProgramIndex, rep: Report, tier: str):
         "Phi(m / sqrt(1 + v)); the conditional distributions must be built with the documented parameters. Exactness for polynomials, "
         "truncation error and the accuracy of log_normal_cdf are numerical and not decided.")
     rep.rule("C13-1", "GaussHermiteQuadrature1D is the Gauss-Hermite rule for N(m, v): nodes sqrt(2 v) t + m, weights w / sqrt(pi), sum over the node axes; nodes/weights from hermgauss(num_locs), num_locs defaulting to the setting")
+    rep.rule("C13-6", "the float64 table of hermgauss reaches every precision the module is moved to without passing through a narrower one (stored in float64, or re-derived by _apply)")
+    rep.rule("C13-7", "the node axis of the quadrature is placed by one rank: the singleton axes behind the nodes and behind the weights are counted on the same value")
+    rep.rule("C13-8", "the likelihood and quadrature methods leave their arguments intact: no in-place update reaches the function distribution, the observations or the function samples (storage/version domain)")
     rep.rule("C13-2", "expected_log_prob integrates log p(y|f); log_marginal is the log of the integral of exp(log p(y|f)), both with the module's quadrature over the given function distribution")
     rep.rule("C13-3", "Bernoulli: conditional Bernoulli(Phi(f)) and analytic marginal Bernoulli(Phi(m / sqrt(1 + v))), Phi the standard normal CDF")
     rep.rule("C13-5", "LogNormalCDF: the masked cases of forward and of backward partition the real line, each case computes its values from the elements selected by its own mask, and per-case intermediates saved on ctx are used for the same case")
@@ -115,6 +118,7 @@ def run(idx: ProgramIndex, rep: Report, tier: str):
     bernoulli(idx, rep)
     conditionals(idx, rep)
     log_normal_cdf(idx, rep)
+    inputs_intact(idx, rep)
 
 
 # ---- C13-1 ---------------------------------------------------------------------------------------------------------
@@ -202,17 +206,90 @@ def quadrature(idx: ProgramIndex, rep: Report):
     ok2 = dflt and uses and unpack[0] is not None and stores.get("locations") == unpack[0] and stores.get("weights") == unpack[1]
     rep.add("C13-1", "%s:GaussHermiteQuadrature1D.__init__" % Q.module.name, init.where, ok2,
             "num_locs defaults to settings.num_gauss_hermite_locs; the rule's nodes and weights are stored as locations / weights" if ok2 else
-            "the constructor does not take num_locs from settings.num_gauss_hermite_locs by default, or does not store the nodes as `locations` and the weights as `weights`", {"stores": stores})
+            ("the setting num_gauss_hermite_locs is read in a default argument of the constructor, i.e. once at import time: quadratures built later under settings.num_gauss_hermite_locs(n) keep the import-time node count"
+             if any("num_gauss_hermite_locs" in _norm(d) for d in list(init.node.args.defaults) + [k for k in init.node.args.kw_defaults if k is not None]) else
+             "the constructor does not take num_locs from settings.num_gauss_hermite_locs by default, or does not store the nodes as `locations` and the weights as `weights`"), {"stores": stores})
     # device / dtype moves keep each buffer in its own slot
     ap = idx.method(Q, "_apply", own=True)
-    fnp = ap.params[1]
-    moves = {}
-    for a in ast.walk(ap.node):
-        if isinstance(a, ast.Assign) and isinstance(a.targets[0], ast.Attribute) and chain(a.targets[0].value) == ap.params[0] and a.targets[0].attr in ("locations", "weights"):
-            v = a.value
-            moves[a.targets[0].attr] = chain(v.args[0]) if isinstance(v, ast.Call) and isinstance(v.func, ast.Name) and v.func.id == fnp and len(v.args) == 1 else _norm(v)
-    ok3 = moves == {"locations": "%s.locations" % ap.params[0], "weights": "%s.weights" % ap.params[0]}
-    rep.add("C13-1", "%s:GaussHermiteQuadrature1D._apply" % Q.module.name, ap.where, ok3, "fn is applied to locations and to weights, each stored back in its own slot" if ok3 else "a device / dtype move does not map locations to locations and weights to weights: %s" % moves, {})
+    sn_, fnp = ap.params[0], ap.params[1]
+    SLOT = {"locations": 0, "weights": 1}
+
+    def is_table(e, slot) -> bool:
+        """component `slot` of hermgauss(self.num_locs) / self._locs_and_weights(self.num_locs)"""
+        if isinstance(e, ast.Subscript) and isinstance(e.slice, ast.Constant) and e.slice.value == SLOT[slot] and isinstance(e.value, ast.Call):
+            fn_ = chain(e.value.func) or ""
+            return (fn_.endswith("hermgauss") or fn_ == "%s._locs_and_weights" % sn_) and len(e.value.args) == 1 and _norm(e.value.args[0]) == "%s.num_locs" % sn_
+        return False
+
+    def moved(e, slot) -> Optional[str]:
+        """'moved' = fn(self.<slot>); 'rederived' = <exact table component>.to(fn(self.<slot>))"""
+        if isinstance(e, ast.Call) and isinstance(e.func, ast.Name) and e.func.id == fnp and len(e.args) == 1 and chain(e.args[0]) == "%s.%s" % (sn_, slot):
+            return "moved"
+        if isinstance(e, ast.Call) and isinstance(e.func, ast.Attribute) and e.func.attr == "to" and len(e.args) == 1 and moved(e.args[0], slot) == "moved":
+            src_ = e.func.value
+            if isinstance(src_, ast.Call) and (chain(src_.func) or "") in ("torch.from_numpy", "torch.as_tensor", "torch.tensor") and len(src_.args) == 1 and is_table(src_.args[0], slot):
+                return "rederived"
+            if is_table(src_, slot):
+                return "rederived"
+        return None
+    kinds = {"locations": set(), "weights": set()}
+    bad_moves = []
+    for path, seq in walk_paths(ap):
+        env = {}
+        stored = {}
+        for st, e_ in seq:
+            if isinstance(st, ast.Assign) and isinstance(st.targets[0], ast.Attribute) and chain(st.targets[0].value) == sn_ and st.targets[0].attr in SLOT:
+                stored[st.targets[0].attr] = inline(st.value, e_)
+        for slot in SLOT:
+            if slot not in stored:
+                bad_moves.append("%s is not re-stored on a path" % slot)
+                continue
+            k = moved(stored[slot], slot)
+            if k is None:
+                bad_moves.append("self.%s = `%s`" % (slot, _norm(stored[slot])[:70]))
+            else:
+                kinds[slot].add(k)
+    ok3 = not bad_moves
+    rederives = all("rederived" in kinds[s_] for s_ in SLOT)
+    rep.add("C13-1", "%s:GaussHermiteQuadrature1D._apply" % Q.module.name, ap.where, ok3,
+            "on every path locations / weights become fn(themselves)%s, each in its own slot" % (" or the exact table component moved to where fn puts them" if rederives else "") if ok3 else
+            "a device / dtype move does not map locations to locations and weights to weights: %s" % "; ".join(sorted(set(bad_moves)))[:200], {})
+    # C13-6: precision of the stored table
+    narrowing = []
+    for c in calls_in(lw.node):
+        fn_ = chain(c.func) or ""
+        if fn_ in ("torch.Tensor", "torch.FloatTensor", "torch.HalfTensor") or (isinstance(c.func, ast.Attribute) and c.func.attr in ("float", "half", "bfloat16") and not c.args):
+            narrowing.append(c)
+    ok6 = not narrowing or rederives
+    rep.add("C13-6", "%s:GaussHermiteQuadrature1D[precision of the nodes]" % Q.module.name, lw.where, ok6,
+            ("the float64 table of hermgauss is stored as it is" if not narrowing else
+             "the table is rounded to the default dtype at construction (`%s`), and _apply re-derives it from the float64 table when the dtype changes" % _norm(narrowing[0])[:40]) if ok6 else
+            "`%s` rounds numpy's float64 nodes / weights to the default dtype (float32) and _apply only maps the rounded values: a quadrature moved to float64 with .double() integrates with float32 accuracy (relative error 1e-8 .. 5e-7 for polynomials it should integrate exactly)" % _norm(narrowing[0])[:40], {})
+    # C13-7: where the node axis sits
+    pads = {}
+    for a in ast.walk(fwd.node):
+        if isinstance(a, ast.Assign) and isinstance(a.value, ast.Call) and (chain(a.value.func) or "").split(".")[-1] == "_pad_with_singletons" and a.value.args:
+            which = chain(a.value.args[0]) or ""
+            after = next((k.value for k in a.value.keywords if k.arg == "num_singletons_after"), a.value.args[2] if len(a.value.args) > 2 else None)
+            if which.startswith(sn + ".") and after is not None:
+                pads[which.split(".")[-1]] = after
+    if set(pads) != {"locations", "weights"}:
+        raise AnalysisError("C13-7: GaussHermiteQuadrature1D.forward no longer pads self.locations and self.weights with _pad_with_singletons")
+    roots = {}
+    for k_, e_ in pads.items():
+        names = {x.id for x in ast.walk(e_) if isinstance(x, ast.Name)}
+        # which value's rank decides the number of singleton axes: the distribution (means) or the integrand's result
+        src_names = set()
+        for nm in names:
+            for a in ast.walk(fwd.node):
+                if isinstance(a, ast.Assign) and any(isinstance(t, ast.Name) and t.id == nm for t in a.targets):
+                    src_names.add("integrand" if isinstance(a.value, ast.Call) and isinstance(a.value.func, ast.Name) and a.value.func.id == func_p else ("distribution" if dist_p in {x.id for x in ast.walk(a.value) if isinstance(x, ast.Name)} else nm))
+        roots[k_] = src_names or names
+    ok7 = roots["locations"] == roots["weights"]
+    rep.add("C13-7", "%s:GaussHermiteQuadrature1D.forward[node axis]" % Q.module.name, fwd.where, ok7,
+            "nodes and weights are padded by the rank of the same value" if ok7 else
+            "the node axis is placed in front of the rank of the %s (`%s` singleton axes) but the weights are aligned to the rank of the %s (`%s`): whenever the integrand closes over observations or likelihood parameters with more batch dimensions than q(f) the two disagree - the node axis then meets a batch axis (error, or - batch size = number of nodes - a silently wrong result of the wrong shape)"
+            % ("/".join(sorted(roots["locations"])), _norm(pads["locations"]), "/".join(sorted(roots["weights"])), _norm(pads["weights"])), {})
     rep.floor("C13-1", "quadrature obligations", 4, 4)
 
 
@@ -476,24 +553,38 @@ def conditionals(idx: ProgramIndex, rep: Report):
                 return None
             return a + b if isinstance(e.op, ast.Add) else (a - b if isinstance(e.op, ast.Sub) else a * b)
         return None
+    doc = _documented_beta(C)
+    if doc is None:
+        raise AnalysisError("C13-4: the docstring of BetaLikelihood no longer states p(y | f) = Beta(<a>, <b>) in a form the reader understands")
+    want_a, want_b = doc
     rs = returned(fi)
+    got = {"concentration1": set(), "concentration0": set()}
     for r in rs:
         if not (isinstance(r, ast.Call) and (chain(r.func) or "").split(".")[-1] == "Beta"):
             probs.append("the conditional is not a Beta distribution")
             continue
         kw = kwargs_of(r, ["concentration1", "concentration0"])
-        a, b = ev(kw.get("concentration1")) if kw.get("concentration1") is not None else None, ev(kw.get("concentration0")) if kw.get("concentration0") is not None else None
-        if a is None or b is None:
-            probs.append("the concentrations are not polynomials in sigmoid(f) and the scale that the evaluator understands")
-            continue
-        if a != M * S + Poly.const(1):
-            probs.append("concentration1 is %s, expected sigmoid(f) * scale + 1" % a.show())
-        if b != S - M * S + Poly.const(1):
-            probs.append("concentration0 is %s, expected (1 - sigmoid(f)) * scale + 1" % b.show())
+        for nm in ("concentration1", "concentration0"):
+            v = ev(kw[nm]) if kw.get(nm) is not None else None
+            if v is None:
+                probs.append("%s is not a polynomial in sigmoid(f) and the scale that the evaluator understands" % nm)
+            else:
+                got[nm].add(v)
     if not rs:
         probs.append("no returning path")
-    rep.add("C13-4", "%s:BetaLikelihood.forward" % C.module.name, fi.where, not probs, "Beta(m s + 1, (1 - m) s + 1) with m = sigmoid(f), s = scale" if not probs else "; ".join(sorted(set(probs))), {})
-    rep.floor("C13-4", "conditional distributions", n, 3)
+    if probs:
+        rep.add("C13-4", "%s:BetaLikelihood.forward" % C.module.name, fi.where, False, "; ".join(sorted(set(probs))), {})
+        n += 1
+    else:
+        for nm, want in (("concentration1", want_a), ("concentration0", want_b)):
+            bad = sorted((g for g in got[nm] if g != want), key=lambda g: g.show())
+            n += 1
+            # a wrong value is part of the key: another wrong value is another finding
+            inst = "%s:BetaLikelihood.forward[%s%s]" % (C.module.name, nm, "".join(" = " + g.show() for g in bad))
+            rep.add("C13-4", inst, fi.where, not bad,
+                    "%s = %s (m = sigmoid(f), s = scale), as the class documentation states" % (nm, want.show()) if not bad else
+                    "%s is %s, the class documentation states %s (m = sigmoid(f), s = scale): the conditional mean is not sigmoid(f)" % (nm, ", ".join(g.show() for g in bad), want.show()), {})
+    rep.floor("C13-4", "conditional distributions", n, 3)  # Laplace, Student-t, Beta (one or two obligations)
 
 
 # ---- C13-5 ---------------------------------------------------------------------------------------------------------
@@ -733,3 +824,99 @@ def log_normal_cdf(idx: ProgramIndex, rep: Report):
 def body_of(fn):
     from ..index import body_without_docstring
     return body_without_docstring(fn)
+
+
+def _documented_beta(C):
+    """the two arguments of `\\text{Beta} \\left( A , B \\right)` in the class docstring as polynomials in m = \\sigma(f) and s"""
+    import re
+    from ..domains.symshape import Poly
+    doc = ast.get_docstring(C.node, clean=False) or ""
+    m = re.search(r"\\text\{Beta\}\s*\\left\s*\((.*?)\\right\s*\)", doc, re.S)
+    if not m:
+        return None
+    body = m.group(1).replace("\\left", "").replace("\\right", "")
+    # split at the top-level comma
+    depth, parts, cur = 0, [], ""
+    for ch in body:
+        if ch == "(":
+            depth += 1
+        elif ch == ")":
+            depth -= 1
+        if ch == "," and depth == 0:
+            parts.append(cur)
+            cur = ""
+        else:
+            cur += ch
+    parts.append(cur)
+    if len(parts) != 2:
+        return None
+
+    def parse(txt: str):
+        txt = txt.replace("\\sigma(f)", " M ").replace("\\cdot", " ")
+        toks = re.findall(r"\d+|[A-Za-z]|[()+\-]", txt)
+        pos = [0]
+
+        def atom():
+            if pos[0] >= len(toks):
+                return None
+            t = toks[pos[0]]
+            if t == "(":
+                pos[0] += 1
+                v = expr()
+                if pos[0] >= len(toks) or toks[pos[0]] != ")":
+                    return None
+                pos[0] += 1
+                return v
+            if t.isdigit():
+                pos[0] += 1
+                return Poly.const(int(t))
+            if t == "M":
+                pos[0] += 1
+                return Poly.sym("m")
+            if t == "s":
+                pos[0] += 1
+                return Poly.sym("s")
+            return None
+
+        def term():
+            v = atom()
+            if v is None:
+                return None
+            while pos[0] < len(toks) and toks[pos[0]] not in ("+", "-", ")"):
+                w = atom()
+                if w is None:
+                    return None
+                v = v * w
+            return v
+
+        def expr():
+            v = term()
+            if v is None:
+                return None
+            while pos[0] < len(toks) and toks[pos[0]] in ("+", "-"):
+                op = toks[pos[0]]
+                pos[0] += 1
+                w = term()
+                if w is None:
+                    return None
+                v = v + w if op == "+" else v - w
+            return v
+        v = expr()
+        return v if v is not None and pos[0] == len(toks) else None
+    a, b = parse(parts[0]), parse(parts[1])
+    return (a, b) if a is not None and b is not None else None
+
+
+# ---- C13-8 ---------------------------------------------------------------------------------------------------------
+def inputs_intact(idx: ProgramIndex, rep: Report):
+    """q(f) handed to a likelihood is used again by the caller (a second marginal, the ELBO's other terms): mean / variance of a lazily
+    represented covariance are views of its storage, so an in-place update inside marginal / expected_log_prob changes the distribution
+    for every later use."""
+    from .common_alias import aliasing_obligations
+    funcs = []
+    for cn in ("_OneDimensionalLikelihood", "BernoulliLikelihood", "LaplaceLikelihood", "StudentTLikelihood", "BetaLikelihood", "GaussHermiteQuadrature1D"):
+        c = idx.find_class(cn)
+        for mn in ("forward", "marginal", "log_marginal", "expected_log_prob"):
+            if mn in c.methods:
+                funcs.append(c.methods[mn])
+    aliasing_obligations(idx, rep, "C13-8", funcs, 10, "likelihood / quadrature methods", arg_attrs_alias=True)
